@@ -234,7 +234,7 @@ func main() {
 	for _, t := range []uint64{0, 5, 20} {
 		waitScenario(w, "stale-helper", t)
 	}
-	for i := 0; i < 12; i++ {
+	for i := 0; i < 40; i++ {
 		waitScenario(w, "contending-signal", 1500)
 		waitScenario(w, "contending-broadcast", 1500)
 	}
